@@ -61,6 +61,11 @@ type Policy struct {
 	Span  int    `json:"span,omitempty"`  // pct: step range over which change points are drawn
 	Stick int    `json:"stick,omitempty"` // sticky: percent probability of staying with the same task
 	Pool  int    `json:"pool,omitempty"`  // behaviour of simrt.Pool (the sync.Pool replacement): 0 always reuse, 1 never, 2 alternate
+	// Jitter: per-mille probability, at every scheduling step, that simulated
+	// time passes (1 ms ... 3 h) before the next task is released - the released
+	// task "was slow". Timers and deadlines of the code under test then fire
+	// while work is still in progress. Recorded in the picks as negative entries.
+	Jitter int `json:"jitter,omitempty"`
 }
 
 // Options configures one simulated run.
@@ -114,6 +119,7 @@ type Result struct {
 	Picks         []int     `json:"picks,omitempty"`
 	InvariantFail string    `json:"invariant_fail,omitempty"`
 	FakeSleeps    int       `json:"fake_sleeps,omitempty"`
+	Jitters       int       `json:"jitters,omitempty"`   // steps at which simulated time was let pass
 	Exited        bool      `json:"exited,omitempty"`    // a task called os.Exit / log.Fatal
 	ExitCode      int       `json:"exit_code,omitempty"` // its status
 	BubbleEnd     string    `json:"bubble_end,omitempty"`
@@ -122,6 +128,7 @@ type Result struct {
 type picker struct {
 	pol   Policy
 	rng   *Rand
+	jrng  *Rand
 	picks []int
 	pos   int
 	prio  map[string]int
@@ -131,7 +138,7 @@ type picker struct {
 }
 
 func newPicker(pol Policy, picks []int) *picker {
-	p := &picker{pol: pol, rng: NewRand(pol.Seed), picks: picks, prio: map[string]int{}, chg: map[int]bool{}}
+	p := &picker{pol: pol, rng: NewRand(pol.Seed), jrng: NewRand(Mix(pol.Seed, 0x717)), picks: picks, prio: map[string]int{}, chg: map[int]bool{}}
 	if pol.Kind == "pct" {
 		span := pol.Span
 		if span <= 0 {
@@ -149,6 +156,9 @@ func (p *picker) pick(parked []*simrt.Task, step int) int {
 	switch p.pol.Kind {
 	case "recorded":
 		v := 0
+		for p.pos < len(p.picks) && p.picks[p.pos] < 0 {
+			p.pos++ // (a jitter entry that was not consumed)
+		}
 		if p.pos < len(p.picks) {
 			v = p.picks[p.pos]
 		}
@@ -207,6 +217,9 @@ func fnv(h uint64, s string) uint64 {
 
 var stateName = [...]string{"starting", "running", "parked", "finished"}
 
+// jitterDurations are the stretches of simulated time a jitter step lets pass.
+var jitterDurations = []time.Duration{time.Millisecond, 100 * time.Millisecond, 2 * time.Second, 40 * time.Second, 11 * time.Minute, 3 * time.Hour}
+
 // Run executes body as the main task of a simulated run and schedules every
 // task of the system until quiescence.
 func Run(t *testing.T, opt Options, body func()) (res Result) {
@@ -246,6 +259,7 @@ func Run(t *testing.T, opt Options, body func()) (res Result) {
 		h := uint64(14695981039346656037)
 		mainSeen := false
 		sleeps := 0
+		jittered := false
 		for {
 			synctest.Wait()
 			if ex, code := simrt.ExitRequested(); ex && !mainSeen {
@@ -308,6 +322,28 @@ func Run(t *testing.T, opt Options, body func()) (res Result) {
 				res.Choices++
 			}
 			sleeps = 0 // progress is possible again: the fake-sleep allowance is per stall
+			if !jittered {
+				ji := -1
+				if pk.pol.Kind == "recorded" {
+					if pk.pos < len(pk.picks) && pk.picks[pk.pos] < 0 {
+						ji = -pk.picks[pk.pos] - 1
+						pk.pos++
+					}
+				} else if opt.Policy.Jitter > 0 && pk.jrng.Intn(1000) < opt.Policy.Jitter {
+					ji = pk.jrng.Intn(len(jitterDurations))
+				}
+				if ji >= 0 && ji < len(jitterDurations) {
+					// simulated time passes; whoever was waiting for a timer wakes
+					// up and parks at its next scheduling point, then we choose again
+					res.Picks = append(res.Picks, -ji-1)
+					res.Jitters++
+					h = fnv(h, "jitter")
+					jittered = true
+					time.Sleep(jitterDurations[ji])
+					continue
+				}
+			}
+			jittered = false
 			i := pk.pick(parked, res.Steps)
 			tk := parked[i]
 			lbl := tk.Label()
